@@ -41,7 +41,7 @@ def jobs(tier, seed, prop):
     t2 = [t_ for k, a, t_ in cf.sections if k == "text2"][0]
     for fn in ("chain_differentiate", "chain_weights"):
         out.append(Job("transforms." + fn, '#include "tsg_shim.h"\n#include <stdlib.h>\nint tsg_exc;\n#define CHAIN %s\n#define CH_NO %d\n#line 1 "/verif/contracts/transforms.c"\n' % (fn, 2 if tier == "quick" else 3) + t2 + ct + cf.text(("harness",), ["h_chain"]),
-                       "h_chain", unwind=2 * 6 + 2, timeout=300, functions=["%s:%d %s" % (f["file"], f["line"], f["name"]) for f in cinfo["functions"]], info=cinfo,
+                       "h_chain", unwind=2 * 6 + 2, timeout=300 if tier == "quick" else 2400, backends=[[], ["--sat-solver", "cadical"]], functions=["%s:%d %s" % (f["file"], f["line"], f["name"]) for f in cinfo["functions"]], info=cinfo,
                        bounded="dimensions <= 2, outputs / points <= 2 quick, 3 thorough (full unwinding); canary cells behind the array detect out-of-range writes",
                        assumed=["R13: the product is an uninterpreted deterministic function"],
                        label="%s: chain-rule scaling touches each entry once with the rate of its own dimension" % fn))
